@@ -698,6 +698,8 @@ func checkC07(w *World, r *Report) {
 	r.Try(func() { ruleDescriptorImmutable(w, r, "R07.9") })
 	r.Rule("R07.11", 1, "the registrations validated are the registrations the provider serves: validation and the registry snapshot happen in one critical section of the collection")
 	r.Try(func() { ruleBuildOneCriticalSection(w, r, "R07.11") })
+	r.Rule("R07.12", 20, "R-KEYLIT: the lifetime table, the registry and resolution agree on the identity of a dependency (a lookup that falls back to another key must fall back in validation too)")
+	r.Try(func() { ruleKeyLiterals(w, r, "R07.12") })
 	r.Rule("R07.10", 3, "what lifetime validation walks (services and groups) and what Build constructs (the descriptor list) stay in step: every writer of a view writes the others, a removal drops exactly the descriptor it found")
 	r.Try(func() { reexport(w, r, "R07.10", func(sub *Report) { checkC17(w, sub) }, "R17.1", "R17.8") })
 	r.Rule("R07.4", 2, "group dependencies are checked against every member of the group (group-keyed lookup in the groups view); plain and keyed dependencies against the table entry for exactly (Type, Key)")
@@ -1130,6 +1132,8 @@ func checkC08(w *World, r *Report) {
 	r.Try(func() { ruleGraphSeesAllDependencies(w, r, "R08.6") })
 	r.Rule("R08.14", 1, "the set Build accepted is the set the provider serves: validation and the registry snapshot happen in one critical section of the collection")
 	r.Try(func() { ruleBuildOneCriticalSection(w, r, "R08.14") })
+	r.Rule("R08.15", 20, "R-KEYLIT: presence validation, the graph and resolution agree on the identity of a dependency")
+	r.Try(func() { ruleKeyLiterals(w, r, "R08.15") })
 	r.Rule("R08.12", 3, "the registrations Build validates are the registrations resolution can reach: every writer of the services / groups views keeps the descriptor list in step, and a removal drops exactly the descriptor it found")
 	r.Try(func() { reexport(w, r, "R08.12", func(sub *Report) { checkC17(w, sub) }, "R17.1", "R17.8") })
 	r.Rule("R08.13", 3, "what Build validated is what is resolved: a registered descriptor is never changed in place (a registration swapped under its key is not re-checked for presence of its dependencies)")
